@@ -548,12 +548,14 @@ def check(pid, tier="quick", seed=None, n_override=None, replay=None):
         found = None
         if vh and res and res["ok"]:
             budget = spec.get("search_rounds", 6)
+            # cases per search round; specs whose cases spawn processes set "search_n" (default: 2 * max(n, 2000))
+            n_search = spec.get("search_n", max(n, 2000) * 2)
             for k in range(budget):
                 s2 = seed * 1000003 + 17 * (k + 1)
-                r2 = run_cases(spec, vh, s2, max(n, 2000) * 2, tier, work + "-search", with_coq=False, extra_env=env)
+                r2 = run_cases(spec, vh, s2, n_search, tier, work + "-search", with_coq=False, extra_env=env)
                 nf = [c for c in r2["cases"] if c["oracle"] == "fails" and c["class"] not in known_classes]
                 if nf:
-                    found = (s2, max(n, 2000) * 2, nf[0])
+                    found = (s2, n_search, nf[0])
                     break
         if found:
             s2, n2, c = found
